@@ -6,5 +6,32 @@ PID = "C05"
 MODULE = "GoldilocksVerif.Props.C05"
 
 
+def extend_histories(seed, tier):
+    """short histories of extendPol calls on ONE object with growing, shrinking and repeated N: every call must still be the
+    low-degree extension (the coefficient cache must never be reused for another N)"""
+    rng = Rng(seed ^ 0xC05)
+    cases = []
+    for _ in range(60 if tier == "quick" else 1500):
+        s = rng.choice([3, 4, 5])
+        calls = []
+        for _c in range(2 + rng.below(3)):
+            d = rng.below(s + 1)
+            n = 1 << d
+            e = min(d + rng.below(3), 6)
+            ncols = rng.choice([1, 2, 3])
+            mode = rng.choice((0, 1))
+            rows = n if mode == 1 else (1 << e)
+            calls.append((2, n, 1 << e, ncols, rng.below(e + 3), rng.below(ncols + 2), rng.below(2), mode, C03.nc.gen_data(rng, rows * ncols)))
+        ns = [c[1] for c in calls]
+        tag = "hist:len=%d,%s" % (len(calls), "shrinks" if any(b < a for a, b in zip(ns, ns[1:])) else ("grows" if any(b > a for a, b in zip(ns, ns[1:])) else "same"))
+        cases.append({"line": C03.nc.seq_line(1 << s, rng.choice([1, 2, 3]), calls), "key": "extendPol-history", "calls": calls, "tag": tag})
+    return cases
+
+
 def run(tier, seed):
-    return C03.run_generic(PID, MODULE, "C05_", [2], tier, seed, "extendPol (N <= N_ext incl. N = 1 and N_ext = N)").finish()
+    res = C03.run_generic(PID, MODULE, "C05_", [2], tier, seed, "extendPol (N <= N_ext incl. N = 1 and N_ext = N)")
+    drv, err = build_driver()
+    h, herr = build_harness("O1")
+    if h and not herr:
+        C03.nc.run_cases(res, h, drv if not err else NO_MODEL, extend_histories(seed, tier), "O1")
+    return res.finish()
